@@ -150,12 +150,16 @@ def replicat_frame(frame):
     return r
 
 
+ROLE_NAMES = {}      # actual function name → canonical role name ('_acquire_slot…'), set by sched_ctl.Instrument from what the objects are
+
+
 def _where(frame):
-    """innermost function of the replicat package on the stack of `frame`"""
+    """innermost function of the replicat package on the stack of `frame` (slot managers under their canonical role name)"""
     f = frame
     while f is not None:
         if replicat_frame(f):
-            return f.f_code.co_name
+            n = f.f_code.co_name
+            return ROLE_NAMES.get(n, n)
         f = f.f_back
     return '?'
 
@@ -538,7 +542,8 @@ def retried_slot_wait(repo, timeout=30):
 
     @contextmanager
     def _acquire_slot_threadsafe(*, loop):
-        pending = asyncio.run_coroutine_threadsafe(repo._slots.get(), loop)
+        from .sched_ctl import slots_of
+        pending = asyncio.run_coroutine_threadsafe(slots_of(repo).get(), loop)
         while True:
             try:
                 slot = pending.result(timeout=timeout)
@@ -548,9 +553,10 @@ def retried_slot_wait(repo, timeout=30):
         try:
             yield slot
         finally:
-            loop.call_soon_threadsafe(repo._slots.put_nowait, slot)
+            loop.call_soon_threadsafe(slots_of(repo).put_nowait, slot)
     EXTRA_CODE.add(_acquire_slot_threadsafe.__wrapped__.__code__)
-    repo._acquire_slot_threadsafe = _acquire_slot_threadsafe
+    from .sched_ctl import slot_roles
+    setattr(repo, slot_roles(repo)[2], _acquire_slot_threadsafe)
 
 
 # ------------------------------------------------------------------------------------------------ strategy
